@@ -238,6 +238,7 @@ static const struct { const char *name, *bytes; int twowin; } ops[] = {
 	{"z<CR>", "z\n", 0}, {"z.", "z.", 0}, {"z-", "z-", 0}, {"H", "H", 0}, {"L", "L", 0}, {"P", "P", 0}, {"^R", "\x12", 0}, {"20|", "20|", 0},
 	{"ia<CR>b<ESC>", "ia\nb" ESC, 0}, {":1", ":1\n", 0}, {"yy", "yy", 0}, {"5j", "5j", 0}, {"w", "w", 0},
 	{"^Ws", "\x17s", 1}, {"^Wj", "\x17j", 1}, {"^Wo", "\x17o", 1}, {"3yy", "3yy", 0}, {"5k", "5k", 0},
+	{"l", "l", 0}, {"h", "h", 0}, {"3l", "3l", 0},
 	{"gUj", "gUj", 0}, {"g~3j", "g~3j", 0}, {"gUw", "gUw", 0}, {">j", ">j", 0}, {"3J", "3J", 0},
 	{"3p", "3p", 0}, {"2P", "2P", 0}, {":%s/i/I/", ":%s/i/I/\n", 0}, {":g/2/d", ":g/2/d\n", 0},
 };
@@ -313,6 +314,7 @@ static void render_line(const char *ln, int left, int cols, char *out, int max)
 }
 
 static int state_bad;
+static int last_valid, last_c, last_xrow, last_xoff, last_xleft;
 static void nx_at_state(void)
 {
 	struct grid mine;
@@ -364,6 +366,22 @@ static void nx_at_state(void)
 			}
 		}
 	}
+	/* (1'') h and l are visual motions in every configuration: when they move the cursor within its line, the
+	 * terminal cursor moves left / right (same horizontal offset) */
+	if (!state_bad && windows == 1 && nx_depth > 0 && last_valid && xrow == last_xrow && xleft == last_xleft && xoff != last_xoff) {
+		const char *nm = ops[nx_hist[nx_depth - 1]].name;
+		int want = !strcmp(nm, "l") || !strcmp(nm, "3l") ? +1 : !strcmp(nm, "h") ? -1 : 0;
+		if (want && (E.c - last_c) * want <= 0) {
+			nx_viol("c19-cursor", "%s moved the terminal cursor from column %d to column %d (line %d, character %d to %d): not to the %s",
+				nm, last_c + 1, E.c + 1, xrow + 1, last_xoff + 1, xoff + 1, want > 0 ? "right" : "left");
+			state_bad = 1;
+		}
+	}
+	last_valid = windows == 1 && !state_bad;
+	last_c = E.c;
+	last_xrow = xrow;
+	last_xoff = xoff;
+	last_xleft = xleft;
 	/* (1') right-to-left content, single window: the rows are only compared with the repaint twin below, but
 	 * the cursor has an independent oracle where it is cheap: it is on the cursor line's row, and when the
 	 * character commands act on is a printable ASCII character, the cell under the cursor shows that character */
@@ -501,7 +519,8 @@ static void run_config(int lines, int rows, int cols, int hl, int hll, int depth
 	windows = 1;
 	nops_used = nops;
 	nx_bound = depth;
-	snprintf(nx_cfg_args, sizeof(nx_cfg_args), "cfg=%d,%d,%d,%d,%d,%d,%d", lines, rows, cols, hl, hll, !structural, cfg_exinit_extra[0] ? 1 : 0);
+	snprintf(nx_cfg_args, sizeof(nx_cfg_args), "cfg=%d,%d,%d,%d,%d,%d,%d", lines, rows, cols, hl, hll, !structural,
+		!cfg_exinit_extra[0] ? 0 : strstr(cfg_exinit_extra, "order") ? 2 : 1);
 	nx_run(3, argv);
 	nv_stat("configurations", 1);
 	nx_report();
@@ -522,7 +541,7 @@ int main(int argc, char **argv)
 		int l, r, c, h, hh, rtl = 0, td = 0;
 		sscanf(nv_arg(argc, argv, "cfg", "40,8,40,1,0"), "%d,%d,%d,%d,%d,%d,%d", &l, &r, &c, &h, &hh, &rtl, &td);
 		structural = !rtl;
-		cfg_exinit_extra = td ? "|se td=-2" : "";
+		cfg_exinit_extra = td == 2 ? "|se td=-2|se order=0" : td ? "|se td=-2" : "";
 		run_config(l, r, c, h, hh, nx_replay_n >= 0 ? 10 : d, NOPS);
 		return nv_finish();
 	}
@@ -537,6 +556,8 @@ int main(int argc, char **argv)
 	run_config(12, 8, 40, 1, 0, 3, 24);
 	cfg_exinit_extra = "|se td=-2";
 	run_config(12, 8, 40, 0, 1, 3, 24);
+	cfg_exinit_extra = "|se td=-2|se order=0";	/* no reordering, the lines still mirrored */
+	run_config(12, 8, 40, 0, 0, 2, NOPS);
 	structural = 1;
 	cfg_exinit_extra = "";
 	if (nv_thorough) {
